@@ -1044,3 +1044,118 @@ def _circ_variant(tmpl):
             return None
     return {'cols': wcols, 'info': winfo, 'anchor': anchor, 'anchor_core': anchor_core, 'off': elem_aff('OFFSET'), 'len': elem_aff('LENGTH'),
             'colval': colval}
+
+
+def reanchor_algebra(chk, repo, rid):
+    """R-AFFINE: a variant that is re-anchored takes the nucleotide at the boundary of its NEW location, read off the OLD one.
+    E9 evaluates the method (FeatureLocation(start=, end=) modelled as a record of its keyword arguments - Biopython stores them
+    as .start / .end); a read of self.location after it was replaced therefore evaluates to the NEW value.  Obligations, over
+    s, e = the location on entry:
+      to_end_inclusion:   location' = [s+1, e+1);  ref' = ref[1:] + seq[e] (and alt' likewise unless Insertion): the appended index is end' - 1
+      shift_deletion_up:  location' = [s-1, e);    ref' = seq[s-1]: the index is start'"""
+    import re
+    from sa.peval import PEval, Rec, show as pshow
+    from sa.affine import simple_aff, Aff
+    chk.rule(rid, 'R-AFFINE: re-anchoring a variant shifts its location by one and takes the nucleotide at the new boundary', 4)
+    S, E = Aff.sym('self.location.start'), Aff.sym('self.location.end')
+
+    def aff_of(v):
+        try:
+            return simple_aff(ast.parse(pshow(v), mode='eval').body) if v is not None else None
+        except SyntaxError:
+            return None
+
+    def idx_of(text, seqname):
+        m = re.findall(re.escape(seqname) + r'\.seq\[([^\[\]]+)\]', text)
+        out = []
+        for t in m:
+            try:
+                out.append(simple_aff(ast.parse(t, mode='eval').body))
+            except SyntaxError:
+                out.append(None)
+        return out
+    for name, seqname, d_start, d_end, fields in (('to_end_inclusion', 'seq', 1, 1, ('self.ref', 'self.alt')), ('shift_deletion_up', 'tx_seq', -1, 0, ('self.ref',))):
+        f = repo.func('seqvar.VariantRecord:VariantRecord.' + name)
+        chk.uses(f)
+        try:
+            outs = [o for o in PEval(split_unknown=True, records={'FeatureLocation'}).run(f.node, {}) if o.kind != 'raise']
+        except (ValueError, OverflowError) as e_:
+            chk.undecided(rid, name, f.where, f"{name} cannot be evaluated: {e_}", key=f"{f.qual}::reanchor", fn=f.qual)
+            continue
+        if not outs:
+            chk.undecided(rid, name, f.where, f"{name} has no normal outcome", key=f"{f.qual}::reanchor", fn=f.qual)
+            continue
+        ok_loc, ok_idx, detail = True, True, ''
+        for o in outs:
+            loc = o.env.get('self.location')
+            ns, ne = (aff_of(loc.fields.get('start')), aff_of(loc.fields.get('end'))) if isinstance(loc, Rec) else (None, None)
+            if ns != S + Aff(d_start) or ne != E + Aff(d_end):
+                ok_loc = False
+                detail = f"location' = [{ns!r}, {ne!r})"
+            want = (ne - Aff(1)) if name == 'to_end_inclusion' else ns
+            insertion = o.assumed.get("self.type == 'Insertion'")
+            if insertion is None and "self.type != 'Insertion'" in o.assumed:
+                insertion = not o.assumed["self.type != 'Insertion'"]
+            for fld in fields:
+                v = o.env.get(fld)
+                if v is None:
+                    if fld == 'self.alt' and insertion is True:
+                        continue          # the alt of an insertion is symbolic and stays
+                    ok_idx = False
+                    detail = f"{fld} is not rebuilt"
+                    continue
+                ix = idx_of(pshow(v), seqname)
+                if len(ix) != 1 or ix[0] is None or want is None or ix[0] != want:
+                    ok_idx = False
+                    detail = f"{fld}' = {pshow(v)[:80]} (index {ix}, boundary of the new location {want!r})"
+        chk.ob(rid, f"{name}: the location moves by ({d_start:+d}, {d_end:+d})", f.where, ok_loc, f"{name}: {detail}", key=f"{f.qual}::new-location", fn=f.qual)
+        chk.ob(rid, f"{name}: the nucleotide taken from the sequence is the one at the boundary of the new location", f.where, ok_idx,
+               f"{name}: {detail} - the variant is rebuilt with a nucleotide one position off, so the allele it inserts spells a different codon",
+               key=f"{f.qual}::boundary-nucleotide", fn=f.qual)
+
+
+def slice_keeps_own_fields(chk, repo, rid, floor=5):
+    """R-KEYS: a slice of a record is a record of the same class with every field of its own constructor carried over.
+    Instances = classes whose own __init__ has keyword-only parameters and whose __getitem__ builds self.__class__(...) (directly
+    or through a method of the class it returns from).  Obligation per keyword-only parameter: the constructor call of the slice
+    passes it; every one except `locations` (recomputed for the slice) is passed from the same attribute of self."""
+    chk.rule(rid, 'R-KEYS: x[i:j] of a coordinate-carrying record passes every own constructor field on to the slice', floor)
+
+    def ctor_calls(cls_q, fn, depth=0):
+        out = []
+        for r_ in [n for n in walk_no_nested(fn.node) if isinstance(n, ast.Return) and n.value is not None]:
+            v = r_.value
+            if isinstance(v, ast.Name):
+                ds = [a.value for a in walk_no_nested(fn.node) if isinstance(a, ast.Assign) and len(a.targets) == 1 and unparse(a.targets[0]) == v.id]
+                v = ds[-1] if len(ds) == 1 else v
+            if isinstance(v, ast.Call) and unparse(v.func) == 'self.__class__':
+                out.append((fn, v, {}))
+            elif isinstance(v, ast.Call) and isinstance(v.func, ast.Attribute) and unparse(v.func.value) == 'self' and depth < 2:
+                q = f"{cls_q}.{v.func.attr}"
+                if q in repo.functions:
+                    h = repo.func(q)
+                    for (f2, c2, _b) in ctor_calls(cls_q, h, depth + 1):
+                        out.append((f2, c2, {'via': v}))
+        return out
+    for q, f in sorted(repo.functions.items()):
+        if not q.endswith('.__getitem__'):
+            continue
+        cls_q = q[:-len('.__getitem__')]
+        if cls_q + '.__init__' not in repo.functions:
+            continue
+        init = repo.func(cls_q + '.__init__')
+        own = [a.arg for a in init.node.args.kwonlyargs]
+        if not own:
+            continue
+        calls = ctor_calls(cls_q, f)
+        if not calls:
+            continue
+        chk.uses(f, init)
+        for k in own:
+            ok = True
+            for (f2, c, _b) in calls:
+                v = kwarg(c, k)
+                ok = ok and v is not None and (k == 'locations' or f"self.{k}" in unparse(v))
+            chk.ob(rid, f"{cls_q.split(':')[1]}[...] passes `{k}` to the slice", f.where, ok,
+                   f"the record built for a slice does not receive `{k}` from self.{k}: the slice silently loses it "
+                   "(e.g. the selenocysteine positions of a transcript prefix used for a fusion)", key=f"{q}::{k}", fn=f.qual)
